@@ -183,6 +183,7 @@ class World:
         self.engines = []
         self.local = []
         self.timers = []  # (when, seq, fn) harness callbacks in virtual time
+        self.current = None  # index of the engine being stepped (None = harness code)
         self._tseq = 0
 
     @property
@@ -220,7 +221,11 @@ class World:
                 if pred is not None and pred():
                     return True
                 self.net.clock.t = lt
-                self.engines[i].step(1)
+                self.current = i
+                try:
+                    self.engines[i].step(1)
+                finally:
+                    self.current = None
                 self.local[i] = max(self.net.clock(), lt + 1e-6)
                 n += 1
                 if n > max_iter:
